@@ -275,9 +275,10 @@ theorem mhok_stepCreated (p : Pool) (t : Nat) (tk : PTask) (h : MHOK p) : MHOK (
     · exact mhok_afterWorker _ t _ h0
     · exact mhok_suspendTask _ t _ (h0.keep (keep_modTask _ t _)) (fun x => by cases x) (fun x => by cases x)
 
-theorem mhok_workerNext (p : Pool) (t : Nat) (h : MHOK p) : MHOK (p.workerNext t) := by
+theorem mhok_workerNext (p : Pool) (t : Nat) (tk : PTask) (h : MHOK p) : MHOK (p.workerNext t tk) := by
   unfold workerNext
-  exact mhok_suspendTask _ t _ ((h.tame (tame_logEv p _)).keep (keep_modTask _ t _)) (fun x => by cases x) (fun x => by cases x)
+  exact mhok_suspendTask _ t _ (((h.tame (tame_logEv p _)).keep (keep_modTask _ t _)).tame (tame_runHooks _ _ _))
+    (fun x => by cases x) (fun x => by cases x)
 
 theorem mhok_workerCancelled (p : Pool) (t : Nat) (tk : PTask) (h : MHOK p) : MHOK (p.workerCancelled t tk) := by
   unfold workerCancelled
@@ -296,7 +297,7 @@ theorem mhok_stepInWorker (p : Pool) (t : Nat) (tk : PTask) (h : MHOK p) : MHOK 
   · exact mhok_workerCancelled _ t tk (h.keep (keep_modTask p t _))
   · split
     · split
-      · exact mhok_workerNext p t h
+      · exact mhok_workerNext p t tk h
       · exact mhok_afterWorker p t _ h
     · exact mhok_afterWorker p t _ h
     · exact h
